@@ -225,15 +225,27 @@ def family(tier, ks):
            and all(vk in ("ref", "mut") for _, vk in ka["views"] + kb["views"]):
             res_tr.append((a, b, c))
             res_tr.append((b, a, c))
+    # the same with a ParSystem between the resource holder and the task that conflicts with it
+    # through the resource only (the static grouping threads the stage's resource claims through
+    # every kind of task)
+    res_par = []
+    pars = [i for i in idx if ks[i]["par"] and not ks[i]["res"] and not ks[i]["entry"]]
+    for a, c in itertools.product(plain, repeat=2):
+        ka, kc = ks[a], ks[c]
+        if ka["res"] and kc["res"] and conflict(ka, kc) and not comp_conflict(ka, kc):
+            for b in pars:
+                if not conflict(ka, ks[b]) and not conflict(ks[b], kc):
+                    res_par.append((a, b, c))
+    rnd.shuffle(res_par)
     rnd.shuffle(res_tr)
-    triples = [t for t in triples if t not in res_tr]
+    triples = [t for t in triples if t not in res_tr and t not in res_par]
     if tier == "quick":
         pairs = pc[:36] + pn[:40]
-        triples = res_tr[:8] + triples[:36]
+        triples = res_tr[:8] + res_par[:4] + triples[:36]
         quads = qa[:8] + qb[:4]
     else:
         pairs = pc[:300] + pn[:300]
-        triples = res_tr[:60] + triples[:300]
+        triples = res_tr[:60] + res_par[:30] + triples[:300]
         quads = qa[:48] + qb[:24]
     return [("p%03d" % i, p) for i, p in enumerate(pairs)] + [("t%03d" % i, t) for i, t in enumerate(triples)] + \
            [("q%03d" % i, q) for i, q in enumerate(quads)]
